@@ -1,8 +1,14 @@
-"""C05 - engine K (Kani) harnesses, see harness/src/c05.rs and engine_k/harnesses.json"""
+"""C05 - revoked state: the counterparty-secret store (engine M with SHA-256 uninterpreted for the
+derive/provide consistency check; engine K harnesses for the slot arithmetic, see harness/src/c05.rs)"""
 from engine_k import runner as K
 
-EVIDENCE = dict(assumptions=['kernel only: CounterpartyCommitmentSecrets slot arithmetic (place_secret, get_min_seen_secret, slot masks) under Kani; the derive/provide consistency check needs SHA-256 and is not covered by these harnesses', 'HolderCommitmentPoint advance, release_commitment_secret ordering, signer/broadcaster call sequences, reestablish and restart are schedule-level and outside the claim'])
+EVIDENCE = dict(assumptions=['kernel only: CounterpartyCommitmentSecrets (provide_secret / derive_secret / get_secret / place_secret / get_min_seen_secret) and build_commitment_secret; SHA-256 is an uninterpreted function, the 32-byte seed is symbolic, commitment indices are the top m of the 2^48 range (protocol order)', 'the check of a received secret against the announced commitment point is an EC operation (secp256k1) and is NOT covered; HolderCommitmentPoint advance, release_commitment_secret ordering, signer/broadcaster call sequences, reestablish and restart are schedule-level and outside the claim'])
 
 
 def run(S):
+    D = S.decls()
+    from .secrets import honest_sequence, inconsistent_rejected
+    m = 8 if S.tier == 'quick' else 32
+    honest_sequence(S, D, 'C05.a', m)
+    inconsistent_rejected(S, D, 'C05.a', [2, 4] if S.tier == 'quick' else [2, 4, 6, 8, 16])
     K.run_property(S, 'C05')
